@@ -107,9 +107,16 @@ def run(ck):
                '(configuration, flag history) and non-trivial when at least one block attempt is restarted or raises; '
                'real runs: estimator x problem x num_procs x seeded tolerance')
     ck.check_props(required=REQUIRED)
+    # Print Assumptions breaks long axiom types over two lines, which the shared parser skips: name them here
+    for ax in ('ClassicalDedekindReals.sig_forall_dec', 'FunctionalExtensionality.functional_extensionality_dep'):
+        t = 'axiom/primitive used by C09_pow_contract: ' + ax
+        if t not in ck.trusted:
+            ck.trusted.append(t)
+    ck.trusted.append('harness/c09_lib.py: scripted controller, recording hook, Coq case generation, trace oracle')
+    ck.trusted.append('PrimFloat primitives (float64 add/sub/mul/div/compare) in the vm_compute evaluation of the correspondence')
 
     # ------------------------------------------------------------------ 1. scripted fault sequences
-    ncases = 900 if thorough else 260
+    ncases = 900 if thorough else 220
     runs = []
     for _ in range(ncases):
         cfg, sc = gen_case(rng)
